@@ -707,8 +707,12 @@ func (s *Store) MergeTree(a, b string) (string, error) {
 	if err != nil {
 		return "", err
 	}
+	if base == "" {
+		// `git merge-tree` refuses to merge unrelated histories
+		return "", fmt.Errorf("%w: refusing to merge unrelated histories", ErrMergeConflict)
+	}
 	fbase := map[string]string{}
-	if base != "" {
+	{
 		bc, _ := s.commit(base)
 		if fbase, err = s.AllFiles(bc.Tree); err != nil {
 			return "", err
